@@ -1,4 +1,7 @@
 pub mod c02;
+pub mod c05;
+pub mod hchecks;
+pub mod hrun;
 pub mod c09;
 pub mod c13;
 pub mod smoke;
